@@ -92,10 +92,65 @@ def mangle(clsname, attr):
     return attr
 
 
+def version_test_value(test):
+    """Value of a module-level test on the interpreter version, on the Python 3 the analysis targets: True / False, or None
+    when the test is about something else.  `sys.version_info[0]`, `.major`, comparisons of `sys.version_info` with a
+    tuple, the PYTHON_2 / PYTHON_3 flags, combined with not / and / or and numeric literals."""
+    seen = [False]
+
+    def ev(e):
+        if isinstance(e, ast.Constant) and isinstance(e.value, (int, float, bool)):
+            return e.value
+        if isinstance(e, ast.Tuple) and all(isinstance(x, ast.Constant) and isinstance(x.value, int) for x in e.elts):
+            return tuple(x.value for x in e.elts)
+        txt = dump(e)
+        if txt in ("sys.version_info[0]", "sys.version_info.major"):
+            seen[0] = True
+            return 3
+        if txt == "sys.version_info":
+            seen[0] = True
+            return (3, 12, 1)
+        if txt in ("PYTHON_2", "PYTHON2", "utils.PYTHON_2"):
+            seen[0] = True
+            return False
+        if txt in ("PYTHON_3", "PYTHON3", "utils.PYTHON_3"):
+            seen[0] = True
+            return True
+        if isinstance(e, ast.UnaryOp) and isinstance(e.op, ast.Not):
+            v = ev(e.operand)
+            return None if v is None else (not v)
+        if isinstance(e, ast.BoolOp):
+            vs = [ev(x) for x in e.values]
+            if any(v is None for v in vs):
+                return None
+            return all(vs) if isinstance(e.op, ast.And) else any(vs)
+        if isinstance(e, ast.Compare):
+            left = ev(e.left)
+            for op, c in zip(e.ops, e.comparators):
+                right = ev(c)
+                if left is None or right is None or isinstance(left, tuple) != isinstance(right, tuple):
+                    return None
+                if isinstance(left, tuple):
+                    left = left[:len(right)]
+                try:
+                    r = {ast.Lt: left < right, ast.LtE: left <= right, ast.Gt: left > right, ast.GtE: left >= right,
+                         ast.Eq: left == right, ast.NotEq: left != right}.get(type(op))
+                except TypeError:
+                    return None
+                if r is None:
+                    return None
+                if not r:
+                    return False
+                left = right
+            return True
+        return None
+    v = ev(test)
+    return bool(v) if (v is not None and seen[0]) else None
+
+
 def _is_py2_test(test):
-    """`sys.version_info[0] < 3` and the PYTHON_2 flag."""
-    txt = dump(test)
-    return txt in ("sys.version_info[0] < 3", "PYTHON_2")
+    """the test selects the Python 2 side (it is false on the analysed interpreter)"""
+    return version_test_value(test) is False
 
 
 def parse_module(name, text):
@@ -146,6 +201,8 @@ class Module(object):
         for st in body:
             if isinstance(st, ast.If) and _is_py2_test(st.test):
                 self._flatten(st.orelse)
+            elif isinstance(st, ast.If) and version_test_value(st.test) is True:
+                self._flatten(st.body)
             elif isinstance(st, ast.Try):
                 # python 3 target: stdlib imports of the try side succeed
                 self._flatten(st.body)
